@@ -189,7 +189,80 @@ fn auth_params_multiset(line: &str) -> Option<Vec<(Vec<u8>, Vec<u8>)>> {
     Some(out)
 }
 
+/// Pieces of the model that C12 relies on, each against the crate / its dependencies:
+/// content-type parsing (CTYPE), UTF-8 validity (UTF8), UTF-8 labels (LABEL).
+fn c12_pieces(ctx: &mut Ctx) {
+    let mut rng = ctx.rng.fork();
+    let mut tris = Vec::new();
+    // content-type header values over a directed alphabet, possibly several Content-Type headers
+    let words = ["application/x-www-form-urlencoded", "charset", "CHARSET", "utf-8", "=", ";", " ", "\t", "text/plain", "boundary=x", "\"", "Charset=", "", "\u{e9}", "=="];
+    for _ in 0..ctx.n(3000, 60000) {
+        let nh = 1 + rng.below(2);
+        let mut hs: Vec<(String, Vec<u8>)> = Vec::new();
+        if rng.chance(1, 4) {
+            hs.push(("Accept".into(), b"x".to_vec()));
+        }
+        for _ in 0..nh {
+            let v: String = (0..rng.below(7)).map(|_| *rng.pick(&words)).collect();
+            let v: Vec<u8> = v.chars().map(|c| if (c as u32) < 256 { c as u32 as u8 } else { b'?' }).collect();
+            hs.push((rng.pick(&["Content-Type", "content-type", "CONTENT-TYPE"]).to_string(), v));
+        }
+        if rng.chance(1, 8) {
+            hs.clear();
+        }
+        let line = format!("CTYPE {}", if hs.is_empty() { ".".to_string() } else { hs.iter().map(|(n, v)| format!("{}:{}", hx(n.to_ascii_lowercase().as_bytes()), hx(v))).collect::<Vec<_>>().join(",") });
+        let imp_out = match imp::ctype(&hs) { Some(x) => x, None => continue };
+        let spec = match rs::ref_content_type(&hs) {
+            None => "NONE".to_string(),
+            Some((ct, cs)) => format!("CT {} CS {}", hx(&ct), hx_opt(cs.as_deref())),
+        };
+        tris.push(Tri { op: "CTYPE", line, imp: Some(imp_out), spec: Some(spec), class: "c12-content-type".into(), clause: "content type / charset extraction differs from the reference reading (first Content-Type header, text before ';' trimmed, first charset= option)", show: format!("{:?}", hs.iter().map(|(n, v)| format!("{}: {}", n, show(v))).collect::<Vec<_>>()) });
+    }
+    // UTF-8 validity: every 1- and 2-byte string, directed 3- and 4-byte strings, random longer ones
+    let mut utf8 = |b: Vec<u8>, tris: &mut Vec<Tri>| {
+        let v = if rs::utf8_valid(&b) { "1" } else { "0" };
+        tris.push(Tri { op: "UTF8", line: format!("UTF8 {}", hx(&b)), imp: None, spec: Some(v.to_string()), class: "c12-utf8".into(), clause: "", show: show(&b) });
+    };
+    for a in 0..=255u8 {
+        utf8(vec![a], &mut tris);
+        for b in (0..=255u16).step_by(if ctx.thorough { 1 } else { 3 }) {
+            utf8(vec![a, b as u8], &mut tris);
+        }
+    }
+    for lead in [0xe0u8, 0xe1, 0xec, 0xed, 0xee, 0xef, 0xf0, 0xf1, 0xf3, 0xf4, 0xf5, 0xc0, 0xc1, 0xc2, 0xdf] {
+        for b1 in [0x7fu8, 0x80, 0x8f, 0x90, 0x9f, 0xa0, 0xbf, 0xc0] {
+            for b2 in [0x7fu8, 0x80, 0xbf, 0xc0] {
+                utf8(vec![lead, b1, b2], &mut tris);
+                utf8(vec![lead, b1, b2, 0x80], &mut tris);
+                utf8(vec![b'a', lead, b1, b2, 0xbf, b'z'], &mut tris);
+            }
+        }
+    }
+    for _ in 0..ctx.n(2000, 40000) {
+        let l = rng.below(9);
+        utf8((0..l).map(|_| *rng.pick(&[0x41u8, 0x7f, 0x80, 0xbf, 0xc2, 0xc3, 0xa9, 0xe2, 0x82, 0xac, 0xed, 0xa0, 0xf0, 0x9f, 0x98, 0x80, 0xf4, 0x8f, 0x90, 0xff])).collect(), &mut tris);
+    }
+    // labels: the model's three UTF-8 labels against the decoder library's table
+    let bases = ["utf-8", "utf8", "unicode-1-1-utf-8", "utf-16", "latin1", "ascii", "utf_8", "utf-8 ", "x-utf-8", "", "UTF-8", "Utf8", "unicode-1-1-utf-7", "utf-8\u{0}", "\u{a0}utf-8"];
+    for b in bases {
+        for pre in ["", " ", "\t", "\n", "\r", "\u{c}", "\u{b}", "\""] {
+            for post in ["", " ", "\t\n", "\"", ";"] {
+                for up in [false, true] {
+                    let mut l = format!("{}{}{}", pre, b, post);
+                    if up {
+                        l = l.to_uppercase();
+                    }
+                    let v = if imp::is_utf8_label(&l) { "1" } else { "0" };
+                    tris.push(Tri { op: "LABEL", line: format!("LABEL {}", hx(l.as_bytes())), imp: Some(v.to_string()), spec: None, class: "c12-label".into(), clause: "", show: format!("{:?}", l) });
+                }
+            }
+        }
+    }
+    run_tris(ctx, tris);
+}
+
 pub fn c12(ctx: &mut Ctx) {
+    c12_pieces(ctx);
     let mut rng = ctx.rng.fork();
     let mut jobs = Vec::new();
     let cts: [(&str, Option<bool>); 16] = [
